@@ -68,10 +68,8 @@ def pack(st, n, idx):
     for fails, path in st["violations"]:
         for clause, disc, what in fails:
             key = (clause, disc)
-            if key in sig:
-                sig[key]["count"] += 1
-            else:
-                sig[key] = {"clause": clause, "disc": disc, "what": what, "count": 1, "replay": {"nclients": n, "path": path}}
+            if key not in sig:
+                sig[key] = {"clause": clause, "disc": disc, "what": what, "count": st.get("sigcount", {}).get(key, 1), "replay": {"nclients": n, "path": path}}
     res["violations"] = list(sig.values())
     if idx == 0:
         res["samples"].append({"history": [["regdev", 0], ["regcli", 0], ["enable", 0, "A", "Also"], ["send", "getProperties", "A", ["c", 0]]]})
